@@ -212,7 +212,7 @@ struct Ex {
       else if (auto *BT = dyn_cast<CXXBindTemporaryExpr>(E)) N = BT->getSubExpr();
       else if (auto *CE = dyn_cast<CastExpr>(E)) N = CE->getSubExpr();
       else if (auto *DA = dyn_cast<CXXDefaultArgExpr>(E)) N = DA->getExpr();
-      else if (auto *UO = dyn_cast<UnaryOperator>(E)) { if (UO->getOpcode()==UO_AddrOf || UO->getOpcode()==UO_Deref) N = nullptr; }
+      else if (auto *UO = dyn_cast<UnaryOperator>(E)) { if (UO->getOpcode()==UO_LNot) N = UO->getSubExpr(); }
       E = N;
     }
     return -1;
